@@ -25,9 +25,14 @@ def make_obj(cls, attrs):
             # back as a VALUE): to the engine it is an object like any other
             bases = (BaseException,)
             ns["__str__"] = ns["__repr__"]
+        if cls.startswith("Bytes"):
+            # a `bytes` object (non-empty, not numeric text): to the engine a value like any other object - rendered through
+            # str() at String / ID positions, never handed on as bytes
+            bases = (bytes,)
+            ns["__str__"] = ns["__repr__"]
         c = type(cls, bases, ns)
         _classes[cls] = c
-    o = c()
+    o = c(b"x!") if cls.startswith("Bytes") else c()
     for k, v in attrs:
         setattr(o, k, v)
     return o
@@ -102,6 +107,9 @@ def dec(j, undef=None):
             return MultipleException()
         if j["x"]:
             from tartiflette.types.exceptions.tartiflette import TartifletteError
+            if j.get("um"):
+                # built with a developer message AND a user message: the user message is what the response carries
+                return TartifletteError("internal detail, not for the client", user_message=j["m"], extensions={k: dec(x) for k, x in j["e"]} or None)
             return TartifletteError(j["m"], extensions={k: dec(x) for k, x in j["e"]} or None)
         # plain exceptions of several classes (same str() as the message; the engine may not treat one class specially), with or
         # without constructor arguments (`raise ValueError` / a bare assert: empty args, empty message)
